@@ -79,8 +79,21 @@ def alphabet(F, rng):
     add(5, 'read_zslice', [z0])
     add(6, 'get_trace', [t0, NONE, NONE])
     add(1, 'gen_trace_header', [t0])
+    if tc > 1100:           # a header far away in the footer arrays, then (or before) one near their start
+        add(1, 'gen_trace_header', [tc - 7])
+        add(7, 'gen_trace_header', [tc - 300])
     add(1, 'get_tracefield_values', [0])
     add(7, 'gen_trace_header', [t1])
+    # by line number / sample time: the same NUMBER looked up on different axes of one reader
+    il, xl = F['il'], F['xl']
+    ilv = [il['s'] + k * il['d'] for k in range(ni)]
+    xlv = [xl['s'] + k * xl['d'] for k in range(nx)]
+    both = [v for v in ilv if v in xlv and ilv.index(v) != xlv.index(v)]
+    v_il, v_xl = (both[0], both[0]) if both else (ilv[min(1, ni - 1)], xlv[min(2, nx - 1)])
+    add(1, 'read_inline_number', [v_il])
+    add(1, 'read_crossline_number', [v_xl])
+    add(1, 'read_zslice_coord', [2 * min(2, nz - 1)])
+    add(1, 'get_trace_by_coord', [t0, 2, 2 * min(nz, 5)])
     add(2, 'close', [])
     return A
 
@@ -213,7 +226,21 @@ def files_for(run):
     fx = [f for f in fx if any(k in f for k in keep)]
     # z-slice layout with small blocks (16x16x4 at 32 bit) keeps the model run short in the quick tier
     adv = [c for c in c02.written_files(run, 'quick') if 'b(16, 16, 4)' in c.label or 'b(4, 8, 32)' in c.label]      # z-slice layout; a (4,N,M) layout with several plane sets
-    return session.load_files([session.FileCase(p) for p in fx] + adv + c02.written_2d(run, 'quick')[:1], run)
+    return session.load_files([session.FileCase(p) for p in fx] + adv + c02.written_2d(run, 'quick')[:1] + crafted(run), run)
+
+
+def crafted(run):
+    """(a) two line axes that share their end values but not their step; (b) more than 1024 traces (several read-ahead pages of a footer array)"""
+    from .. import writers
+    d = env.subdir('c15w')
+    out = []
+    p = os.path.join(d, 'ends.sgz')
+    writers.numpy_to_sgz(p, inputs.cube((5, 9, 12), run.seed + 71), 32, (4, 4, -1), ilines=1 + 2 * np.arange(5), xlines=1 + np.arange(9), samples=1.0 + np.arange(12))
+    out.append(session.FileCase(p, label='numpy(5, 9, 12) il 1..9 step 2, xl 1..9'))
+    p = os.path.join(d, 'many.sgz')
+    writers.numpy_to_sgz(p, inputs.cube((40, 30, 4), run.seed + 72), 32, (4, 4, -1), ilines=100 + np.arange(40), xlines=7 + 3 * np.arange(30), samples=4.0 * np.arange(4))
+    out.append(session.FileCase(p, label='numpy(40, 30, 4) 1200 traces'))
+    return out
 
 
 def run(run):
